@@ -46,6 +46,8 @@ class Contract:
     inline = ()
     defaults = {}
     must_hold_asserts = False
+    total = True             # under the precondition no path ends in an exception (a raising path would satisfy every postcondition vacuously);
+                             # False: exceptional exits are assumed away (partial correctness), recorded per path in the evidence
     trusted = False          # True: contract is only *assumed* at call sites (external / out of reach); listed in evidence
     note = ""
 
